@@ -89,7 +89,9 @@ fn custom_colors(i: usize) -> Vec<CustomColor> {
     match i {
         0 => vec![],
         1 => vec![c("SliderBorder", 9, 9, 9)],
-        _ => vec![c("SliderTrackOverride", 1, 2, 3), c("SliderBorder", 255, 0, 0), c("Other", 5, 5, 5)],
+        2 => vec![c("SliderTrackOverride", 1, 2, 3), c("SliderBorder", 255, 0, 0), c("Other", 5, 5, 5)],
+        // names that differ only in case are different colours
+        _ => vec![c("SliderBorder", 1, 1, 1), c("sliderborder", 2, 2, 2), c("SLIDERBORDER", 3, 3, 3)],
     }
 }
 
@@ -239,7 +241,7 @@ pub fn all_edits() -> Vec<Edit> {
     v.extend((0..4u8).map(Edit::Mode));
     v.extend((0..4u8).map(Edit::Countdown));
     v.extend((0..4).map(Edit::ComboColors));
-    v.extend((0..3).map(Edit::CustomColors));
+    v.extend((0..4).map(Edit::CustomColors));
     v.extend((0..5).map(Edit::Breaks));
     v
 }
